@@ -32,7 +32,7 @@ func c03Types() []space.Leaf {
 func c03(ctx *Ctx) {
 	var cases []SCase
 	for _, pos := range space.Positions(1) {
-		if pos.Name == "allof" || pos.Name == "anyof" {
+		if strings.HasPrefix(pos.Name, "allof") || strings.HasPrefix(pos.Name, "anyof") {
 			continue // composites are C11's subject
 		}
 		if ctx.Level == 0 && (pos.Name == "item2" || pos.Name == "itemobj") {
